@@ -24,9 +24,6 @@ Record case := mkCase {
   o_ms : Z;               (* wall clock of the call *)
 }.
 
-(* slack allowed on top of timeout + wait delay for process creation and
-   scheduling when judging the real wall clock *)
-Definition slack_ms : Z := 400.
 (* the implementation cannot be faster than the behaviour's own sleeps *)
 Definition early_ms : Z := 60.
 
@@ -87,7 +84,11 @@ Definition mismatch (c : case) : bool :=
         && match t with At ms => ms - early_ms <=? o_ms c | Never => false end).
 
 (* ---- the property on the implementation's observation ---- *)
-Definition bound_ms (c : case) : Z := timeout_of c + CmdWaitDelayMs + slack_ms.
+(* judged with the numbers of the PROPERTY, not of the source: the timeout given
+   by the caller (api 0) or the 2 s of the statement (sensor / fan wrappers),
+   plus the small margin *)
+Definition bound_ms (c : case) : Z :=
+  (if c_api c =? 0 then c_T c else prop_timeout_ms) + small_margin_ms.
 
 (* "returns within its timeout plus a small margin with either the command's
    trimmed output or an error; never panics" *)
